@@ -230,6 +230,10 @@ def run(repo: Repo, rep: Report, tier: str) -> None:
     _c14._ownership(repo, Only(rep, {"R14.8", "R14.9"}))
     from ..core import siblings as _sib3
     _sib3.check_guard_mirror(repo, rep, "R15.10")
+    from ..core.report import Only as _OnlyX
+    from ..core import corpus as _corpusX
+    from . import c18 as _c18x
+    _c18x.run(repo, _OnlyX(rep, {"R18.1"}), tier)
 
 def _names(repo: Repo, rep: Report) -> None:
     """R04.4: injectivity of the internal method names over (direction, format, codec?, specialisation)."""
@@ -269,3 +273,6 @@ LEVEL_TEXT += _ADDENDUM
 _ADD11 = ' Borrowed: R15.10.'
 EXPLANATION += _ADD11
 LEVEL_TEXT += _ADD11
+_ADD22 = ' Borrowed: R18.1 (no-copy shortcuts only where neither keys nor values need conversion).'
+EXPLANATION += _ADD22
+LEVEL_TEXT += _ADD22
